@@ -3,6 +3,10 @@
 
 Op lines (harness/c14.cpp, lean/Driver/C14.lean):
     cv|cw <to> <req> <source>        cv = SparsityConverter<From,To>, cw = via Sparsity<Conf> variant
+    sv|sw <to> <req> <source>        the same, with THREE convert_values calls on the ONE converter object
+                                     (different value arrays: slot i carries base_k + i + 1, base = 0, 100, 50)
+The harness pre-fills every output buffer with a sentinel (−9, −10, −11) that is neither zero nor a source
+value, so "untouched" and "zeroed" cells are distinguishable.
 Monitors rebuild the dense matrix from the source representation and from the converted one
 (value of source slot i = i+1) with code that shares nothing with the Lean model.
 """
@@ -73,7 +77,7 @@ def pick_req(rng, to, wide=False):
 def sparse_case(rng, rows, cols, ents, kind, sym, to, wide=False):
     """One op line for a sparse source built from the entry sequence `ents` ((r, c) zero based)."""
     w = rng.choice(WIDTHS)
-    op = rng.choice(['cv', 'cv', 'cw'])
+    op = rng.choice(['cv', 'cv', 'cw', 'sv', 'sw'])
     req = pick_req(rng, to, wide)
     if kind == 'O':
         fi = rng.choice([0, 1] + ([-1, 2, 5] if wide else []))
@@ -103,7 +107,7 @@ def exhaustive_ops(rng, draws):
             for to in TARGETS:
                 reqs = ['-'] if to == 'D' else ['-', '0', '1']
                 for req in reqs:
-                    ops.append(f'{rng.choice(["cv", "cw"])} {to} {req} {dense_src(rows, cols, sym)}')
+                    ops.append(f'{rng.choice(["cv", "cw", "sv", "sw"])} {to} {req} {dense_src(rows, cols, sym)}')
     # sparse sources: every shape, every multiset of ≤ 4 cells, × format × symmetry × target format;
     # entry order, index widths, order tag, first_index, request drawn per case
     for rows, cols in _SHAPES:
@@ -145,7 +149,7 @@ def crossed_ops():
             for to in TARGETS:
                 reqs = ['-'] if to == 'D' else ['-', '0', '1']
                 for req in reqs:
-                    for op in ('cv', 'cw'):
+                    for op in ('cv', 'cw', 'sv', 'sw'):
                         for w in WIDTHS:
                             for fi in (0, 1):
                                 for order in coo_orders_true(ents):
@@ -167,7 +171,7 @@ def random_ops(rng, n):
         to = rng.choice(TARGETS)
         kind = rng.choice('DOOCC')
         if kind == 'D':
-            ops.append(f'{rng.choice(["cv", "cw"])} {to} {pick_req(rng, to, True)} {dense_src(rows, cols, sym)}')
+            ops.append(f'{rng.choice(["cv", "cw", "sv", "sw"])} {to} {pick_req(rng, to, True)} {dense_src(rows, cols, sym)}')
             continue
         cells = [(r, c) for c in range(cols) for r in range(rows)]
         if sym == UPPER and rng.random() < 0.8:
@@ -360,23 +364,62 @@ def monitor(op, out, st):
     if sk == 'C' and tk == 'C' and req == '1' and src['order'] == 0 and not have:
         reasons.append('unsupported in this build: CSC sorting')
 
-    if ot[0] == 'E1' or (ot[0] == 'ok' and 'E2' in ot):
+    seq = op.split()[0] in ('sv', 'sw')
+    ncalls = 3 if seq else 1
+    COVER[f'{"sequence" if seq else "single"} {sk}->{tk}'] = COVER.get(f'{"sequence" if seq else "single"} {sk}->{tk}', 0) + 1
+    if sk == 'O' and tk == 'O' and req == '-' and src['fi'] != 0 and src['w'] != to[1]:
+        COVER['COO->COO index-width change, source first_index != 0, no request'] += 1
+    if ot[0] == 'E1':
         if not reasons:
             return f'valid, supported conversion was rejected with {ot[-1]}'
+        return None
+    head, *more = out.split(' | ')
+    blocks_raw = []
+    o = Toks(head.split())
+    o.tok()
+    res = parse_pattern(o)
+    blocks_raw.append(o.t[o.p:])
+    blocks_raw += [b.split() for b in more]
+    if len(blocks_raw) != ncalls:
+        return f'{ncalls} value conversions requested, {len(blocks_raw)} answered'
+    threw = [b[:1] == ['E2'] for b in blocks_raw]
+    if any(threw):
+        if not all(threw):
+            return (f'convert_values on ONE converter object threw on call(s) {[k for k, z in enumerate(threw) if z]} '
+                    f'but not on call(s) {[k for k, z in enumerate(threw) if not z]} (same pattern, other values)')
+        if seq:
+            COVER['sequence with convert_values throwing on every call'] += 1
+        if not reasons:
+            return f'valid, supported conversion was rejected with {blocks_raw[0][-1]}'
         return None
 
     # conversion succeeded
     if reasons:
         return f'input that must be rejected ({"; ".join(reasons)}) was converted'
-    o = Toks(ot)
-    o.tok()
-    res = parse_pattern(o)
-    if o.tok() != 'vals':
-        return 'malformed output line'
-    got_src_n = o.int()
-    vals = o.ints()
-    if not o.done():
-        return 'trailing tokens in output line'
+    m = None
+    for k, b in enumerate(blocks_raw):
+        o = Toks(b)
+        if o.tok() != 'vals':
+            return 'malformed output line'
+        got_src_n = o.int()
+        vals = o.ints()
+        if not o.done():
+            return 'trailing tokens in output line'
+        m = check_block(src, res, to, req, bad, ents, n_src, sk, tk, got_src_n, vals, CALL_BASE[k])
+        if m:
+            return (f'call #{k} of {ncalls} on one converter (source slot i carries {CALL_BASE[k]} + i + 1): ' if seq
+                    else '') + m
+    return None
+
+
+CALL_BASE = [0, 100, 50]
+SENTINELS = (-9, -10, -11)
+COVER = {'COO->COO index-width change, source first_index != 0, no request': 0,
+         'sequence with convert_values throwing on every call': 0,
+         'sparse->dense result with structural zeros (cells the converter must zero)': 0}
+
+
+def check_block(src, res, to, req, bad, ents, n_src, sk, tk, got_src_n, vals, base):
     # dims / flags
     if res['kind'] != tk or (tk != 'D' and res['w'] != to[1]):
         return f'result format {res["kind"]}{res["w"]} is not the requested {to}'
@@ -396,7 +439,10 @@ def monitor(op, out, st):
         return 'requested SortedRows order not honoured'
     if order_truthful(src) and not order_truthful(res):
         return f'result claims order {res["order"]} but its indices are not sorted that way'
-    src_vals = list(range(1, n_src + 1))
+    src_vals = [base + i for i in range(1, n_src + 1)]
+    if any(v in SENTINELS for v in vals):
+        return (f'the converter left {sum(v in SENTINELS for v in vals)} of {len(vals)} output values untouched '
+                f'(still the sentinel the buffer was pre-filled with): {vals}')
     if sk != 'D' and tk != 'D':
         # sparse → sparse: the set of (row, col, value) entries must be unchanged, valid or not
         rents = entries_of(res)
@@ -414,6 +460,8 @@ def monitor(op, out, st):
     if 'dups' in bad:
         return None          # duplicates: the library asserts uniqueness; the matrix is ambiguous
     A = dense_of(src, src_vals)
+    if tk == 'D' and sk != 'D' and any(v == 0 for v in A.values()):
+        COVER['sparse->dense result with structural zeros (cells the converter must zero)'] += 1
     if tk == 'D' and sk != 'D':
         # every cell of the dense result, mirrored ones included
         B = {(i, j): vals[i + j * res['rows']] for i in range(res['rows']) for j in range(res['cols'])}
@@ -426,6 +474,19 @@ def monitor(op, out, st):
         diff = [(k, A[k], B[k]) for k in sorted(A) if A[k] != B.get(k)][:4]
         return f'matrix changed: (cell, source, result) = {diff}'
     return None
+
+
+def extra_stage(rep, broken, exe, tier):
+    """required coverage: every class below must have been exercised in this run."""
+    need = dict(COVER)
+    for mode in ('single', 'sequence'):
+        for a in 'DCO':
+            for b in 'DCO':
+                need.setdefault(f'{mode} {a}->{b}', 0)
+    rep.cov['required_coverage'] = dict(sorted(need.items()))
+    missing = [k for k, v in need.items() if not v]
+    if exe and missing:
+        broken.append('required coverage not reached: ' + '; '.join(missing))
 
 
 def nontrivial(op, out):
@@ -470,7 +531,7 @@ def main(argv):
         extra_sources=['Alpaqa/Model/C14.lean', 'Alpaqa/Gen/C14.lean', 'Alpaqa/Proofs/C14.lean',
                        'Driver/C14.lean'],
         harness_name='c14', harness_sources=[os.path.join(C.VERIF, 'harness', 'c14.cpp')],
-        gen_ops=gen_ops, monitor=monitor, nontrivial=nontrivial,
+        gen_ops=gen_ops, monitor=monitor, nontrivial=nontrivial, extra_stage=extra_stage,
         n_quick=20000, n_thorough=1200000,
         trusted_base=[
             'Lean 4.33 kernel (+ Mathlib tactics in proof files; axioms: propext, Classical.choice, Quot.sound)',
@@ -482,6 +543,11 @@ def main(argv):
             'Eigen: reshaped(rows, cols)(i, j) = element i + j*rows; resize / copy_backward / Ref semantics',
             'index-width casts modelled as value preserving (no overflow); unchecked accesses (undefined '
             'behaviour in C++) are outside every theorem and never fed to the harness',
+            'the converter model (`Conv.vals`) is a pure function of the value array; that the C++ converter object '
+            '(mutable `work` vector, stored permutation) gives the same answer on every call is tied by the sv / sw '
+            'ops: three convert_values calls with different value arrays on ONE converter, compared call by call '
+            'with the model and the monitor; output buffers are pre-filled with a sentinel so that a cell the '
+            'converter leaves untouched differs from a cell it sets to zero',
             'std::ranges::sort / C++23 COO→CSC and CSC sorting paths are compiled out by this toolchain and '
             'not modelled (model returns the runtime_error this build throws)',
         ],
@@ -492,7 +558,11 @@ def main(argv):
              '{COO, CSC} × symmetry × target format, dense sources × all targets × requests; entry order, '
              'index widths, order tag, first_index ∈ {0,1}, request, direct/variant wrapper drawn per case; '
              'plus seeded random patterns up to 6×7 (≤ 12 entries, first_index ∈ {-1,0,1,2,5}, out-of-range '
-             'entries for sparse→sparse); distinct = distinct op lines with ≥ 1 value',
+             'entries for sparse→sparse); op kind drawn from {cv, cw, sv, sw} (sv / sw: three value conversions '
+             'on one converter), crossed sweep with all four; required coverage (fails the run when a class is '
+             'missing): single and sequence ops for all nine format pairs, COO→COO with index-width change + source '
+             'first_index ≠ 0 + no request, sequences whose convert_values throws, sparse→dense results with '
+             'structural zeros; distinct = distinct op lines with ≥ 1 value',
     )
 
 
